@@ -155,7 +155,9 @@ static void setup_e2e(Runner &r, const Tier &t) {
 // ------------------------------------------------------------------ ShiftCollider component lattice
 // A real Segment on a real collision font; target slot at the origin, ONE neighbour slot placed on a lattice of origins;
 // glyphs, limit rectangle, margin, accumulated offset, current shift, direction and the isAfter flag are enumerated.
-struct LCase { int font; int tg, ng; int limit, margin, off, sh, dir, after; };
+struct LCase { int font; int tg, ng; int limit, margin, off, sh, dir, after; int ng2; };
+// one report per (reason, zero-area limit?, font, neighbours) per shard: a systematic failure must not exhaust the per-shard failure cap and cut the exploration short
+static bool lattice_first(const char *why, bool zero, int font, int k) { static std::set<std::string> seen; return seen.insert(std::string(why) + (zero ? "|z" : "|n") + char('0' + font) + char('0' + k)).second; }
 static std::vector<LCase> g_lc; static std::vector<std::string> g_lfonts; static std::vector<std::vector<unsigned short>> g_lgids; static int g_lat = 21;
 static const float LIM[5][4] = { { -60, -60, 60, 60 }, { -400, -400, 400, 400 }, { -300, -40, 300, 500 }, { -150, -150, 150, 150 }, { 0, 0, 0, 0 } };   // bl.x bl.y tr.x tr.y (x-symmetric: valid for LTR too)
 static const float OFFS[6][2] = { { 0, 0 }, { 30, 0 }, { -30, 0 }, { 0, 30 }, { 0, -30 }, { 20, -20 } }; static const float SHS[2][2] = { { 0, 0 }, { 15, 0 } };
@@ -166,7 +168,7 @@ static void setup_lattice(Runner &r, const Tier &t) {
             for (auto &x : tx) { gr_segment *s = gr_make_seg(nullptr, face, 0, nullptr, gr_utf8, x.c_str(), utf8_count(x), f == 0 ? 1 : 0); if (!s) continue; for (const gr_slot *q = gr_seg_first_slot(s); q; q = gr_slot_next_in_segment(q)) { unsigned short g = gr_slot_gid(q); const graphite2::BBox &b = gc.getBoundingBBox(g);
                     if (gc.check(g) && b.xa > b.xi && b.ya > b.yi && seen.insert(g).second) { bool sub = gc.numSubBounds(g) > 0; size_t nsub = 0; for (auto h : gids) if (gc.numSubBounds(h) > 0) ++nsub; if (gids.size() < (t.thorough ? 8u : 5u) && (sub ? nsub < 3 : gids.size() - nsub < (t.thorough ? 5u : 3u))) gids.push_back(g); } } gr_seg_destroy(s); } }
         g_lgids.push_back(gids);
-        for (int a = 0; a < int(gids.size()); ++a) for (int b = 0; b < int(gids.size()); ++b) for (int l = 0; l < 5; ++l) for (int m = 0; m < 2; ++m) for (int o = 0; o < 6; ++o) for (int sh = 0; sh < 2; ++sh) for (int dir = 0; dir < 2; ++dir) for (int af = 0; af < 2; ++af) { if (!t.thorough && (sh == 1 && o > 2)) continue; g_lc.push_back({ int(f), a, b, l, m, o, sh, dir, af }); } }
+        for (int a = 0; a < int(gids.size()); ++a) for (int b = 0; b < int(gids.size()); ++b) for (int l = 0; l < 5; ++l) for (int m = 0; m < 2; ++m) for (int o = 0; o < 6; ++o) for (int sh = 0; sh < 2; ++sh) for (int dir = 0; dir < 2; ++dir) for (int af = 0; af < 2; ++af) { if (!t.thorough && (sh == 1 && o > 2)) continue; g_lc.push_back({ int(f), a, b, l, m, o, sh, dir, af, 0 }); } }
     r.ncases = g_lc.size(); r.case_alarm_s = 120; r.shard_init = [](int) { g_fc = new FaceCache; };
     r.describe = [](uint64_t i) { const LCase &c = g_lc[i]; JObj o; o.kv("font", g_lfonts[c.font]).kv("target_gid", g_lgids[c.font][c.tg]).kv("neighbour_gid", g_lgids[c.font][c.ng]).kv("limit", c.limit).kv("margin", c.margin ? 20 : 0).kv("offset_index", c.off).kv("shift_index", c.sh).kv("dir", c.dir).kv("is_after", c.after).kv("neighbour_origins", "lattice " + std::to_string(g_lat) + "x" + std::to_string(g_lat)); return o; };
     r.body = [](uint64_t i, ShardCtl &ctl) {
@@ -195,9 +197,58 @@ static void setup_lattice(Runner &r, const Tier &t) {
                 if (collides) ctl.counters[3] = ctl.counters[3] + 1;
                 // "within reach": only a neighbour the target could touch inside its limit is relevant; the collider skips the others and leaves the target where it is
                 if (worst > 0.05f) { why = "glyph reported as resolved still overlaps the neighbour"; snprintf(detail, sizeof detail, "neighbour at (%g,%g) shift (%g,%g) penetration %.3f collides=%d", nx, ny, res.x, res.y, worst, int(collides)); } }
-            if (why) { JObj o; o.kv("kind", "collider_lattice").kv("why", why).kv("detail", detail).kv("font", g_lfonts[c.font]).kv("target_gid", tg).kv("neighbour_gid", ng).kv("dir", c.dir).kv("dir_ltr", (c.dir & 1) == 0).kv("limit", c.limit).kv("limit_zero_area", limit.bl.x == limit.tr.x && limit.bl.y == limit.tr.y).kv("offset_index", c.off).kv("offset_x", double(off.x)).kv("shift_index", c.sh).kv("is_after", c.after).kv("margin", double(margin)); report_fail(i, o); ix = iy = g_lat; }
+            if (why) { JObj o; o.kv("kind", "collider_lattice").kv("why", why).kv("detail", detail).kv("font", g_lfonts[c.font]).kv("target_gid", tg).kv("neighbour_gid", ng).kv("dir", c.dir).kv("dir_ltr", (c.dir & 1) == 0).kv("limit", c.limit).kv("limit_zero_area", limit.bl.x == limit.tr.x && limit.bl.y == limit.tr.y).kv("offset_index", c.off).kv("offset_x", double(off.x)).kv("shift_index", c.sh).kv("is_after", c.after).kv("margin", double(margin)); bool zero = limit.bl.x == limit.tr.x && limit.bl.y == limit.tr.y; if (lattice_first(why, zero, c.font, 1)) report_fail(i, o); else ctl.counters[4] = ctl.counters[4] + 1; ix = iy = g_lat; }
         }
         ctl.cls(uint64_t(tg) * 70001 + ng * 31 + c.limit); (void)ct; gr_seg_destroy(gs);
+    };
+}
+
+// ---- two neighbours: target at the origin, neighbour 1 and neighbour 2 each on their own lattice (the product of both lattices is enumerated)
+static std::vector<LCase> g_lc2; static int g_lat2 = 7;
+static void setup_lattice2(Runner &r, const Tier &t) {
+    Runner dummy; setup_lattice(dummy, t);     // fonts and glyph selection as for one neighbour
+    g_lc2.clear(); g_lat2 = t.thorough ? 9 : 7;
+    for (size_t f = 0; f < g_lfonts.size(); ++f) { int ng = std::min<int>(int(g_lgids[f].size()), t.thorough ? 5 : 4);
+        for (int a = 0; a < ng; ++a) for (int b = 0; b < ng; ++b) for (int b2 = b; b2 < ng; ++b2) for (int l = 0; l < 4; ++l) for (int m = 0; m < 2; ++m) for (int o : { 0, 1, 5 }) for (int sh = 0; sh < 2; ++sh) for (int dir = 0; dir < 2; ++dir) for (int af = 0; af < 4; ++af) { if (!t.thorough && ((sh == 1 && o != 0) || af == 2)) continue; g_lc2.push_back({ int(f), a, b, l, m, o, sh, dir, af, b2 }); } }
+    r.ncases = g_lc2.size(); r.case_alarm_s = 300; r.shard_init = [](int) { g_fc = new FaceCache; };
+    r.describe = [](uint64_t i) { const LCase &c = g_lc2[i]; JObj o; o.kv("font", g_lfonts[c.font]).kv("target_gid", g_lgids[c.font][c.tg]).kv("neighbour1_gid", g_lgids[c.font][c.ng]).kv("neighbour2_gid", g_lgids[c.font][c.ng2]).kv("limit", c.limit).kv("margin", c.margin ? 20 : 0).kv("offset_index", c.off).kv("shift_index", c.sh).kv("dir", c.dir).kv("is_after_bits", c.after).kv("neighbour_origins", "lattice (" + std::to_string(g_lat2) + "x" + std::to_string(g_lat2) + ")^2"); return o; };
+    r.body = [](uint64_t i, ShardCtl &ctl) {
+        using namespace graphite2; const LCase &c = g_lc2[i]; gr_face *face = g_fc->get(g_lfonts[c.font], gr_face_preloadAll); if (!face) return;
+        const char *tx = c.font == 0 ? "\xD8\xA8\xD8\xA8\xD8\xA8" : "abc"; gr_segment *gs = gr_make_seg(nullptr, face, 0, nullptr, gr_utf8, tx, 3, c.font == 0 ? 1 : 0); if (!gs) return;
+        Segment *seg = static_cast<Segment*>(gs); if (!seg->hasCollisionInfo() || seg->slotCount() < 3) { gr_seg_destroy(gs); return; }
+        Slot *t = seg->first(), *n[2] = { t->next(), t->next()->next() }; const GlyphCache &gc = seg->getFace()->glyphs(); unsigned short tg = g_lgids[c.font][c.tg], ng[2] = { g_lgids[c.font][c.ng], g_lgids[c.font][c.ng2] };
+        for (Slot *q = seg->first(); q; q = q->next()) { while (q->firstChild()) { Slot *ch = q->firstChild(); q->removeChild(ch); ch->attachTo(NULL); } }
+        t->setGlyph(seg, tg); n[0]->setGlyph(seg, ng[0]); n[1]->setGlyph(seg, ng[1]);
+        const BBox &tb = gc.getBoundingBBox(tg); const BBox *nb[2] = { &gc.getBoundingBBox(ng[0]), &gc.getBoundingBBox(ng[1]) }; float span[2];
+        for (int k = 0; k < 2; ++k) { span[k] = (tb.xa - tb.xi) + (nb[k]->xa - nb[k]->xi) + (tb.ya - tb.yi) + (nb[k]->ya - nb[k]->yi); if (span[k] <= 0) span[k] = 1000; }
+        Rect limit(Position(LIM[c.limit][0], LIM[c.limit][1]), Position(LIM[c.limit][2], LIM[c.limit][3])); float margin = c.margin ? 20.f : 0.f, mwt = c.margin ? 10.f : 0.f; Position off(OFFS[c.off][0], OFFS[c.off][1]), sh(SHS[c.sh][0], SHS[c.sh][1]);
+        SlotCollision *cn[2] = { seg->collisionInfo(n[0]), seg->collisionInfo(n[1]) }; for (int k = 0; k < 2; ++k) { cn[k]->setFlags(0); cn[k]->setShift(Position(0, 0)); cn[k]->setOffset(Position(0, 0)); }
+        const float tol = 0.01f; Position acc0 = off + sh; bool inside0 = acc0.x >= limit.bl.x - tol && acc0.x <= limit.tr.x + tol && acc0.y >= limit.bl.y - tol && acc0.y <= limit.tr.y + tol;
+        t->origin(Position(0, 0)); const int L = g_lat2; bool stop = false;
+        for (int i1 = 0; i1 < L * L && !stop; ++i1) { if ((i1 & 7) == 0 && deadline_hit(ctl)) break;
+          for (int i2 = 0; i2 < L * L && !stop; ++i2) {
+            float px[2] = { (i1 / L - L / 2) * span[0] / L, (i2 / L - L / 2) * span[1] / L }, py[2] = { (i1 % L - L / 2) * span[0] / L, (i2 % L - L / 2) * span[1] / L };
+            for (int k = 0; k < 2; ++k) n[k]->origin(Position(px[k], py[k]));
+            ShiftCollider coll(NULL); if (!coll.initSlot(seg, t, limit, margin, mwt, sh, off, c.dir, NULL)) continue;
+            bool collides = false, okm = true; for (int k = 0; k < 2 && okm; ++k) okm = coll.mergeSlot(seg, n[k], cn[k], cn[k]->shift(), ((c.after >> k) & 1) != 0, false, collides, false, NULL); if (!okm) continue;
+            bool isCol = false; Position res = coll.resolve(seg, isCol, NULL); ctl.counters[0] = ctl.counters[0] + 1;
+            const char *why = nullptr; char detail[240] = "";
+            for (int a = 0; a < 4 && !why && inside0; ++a) if (const char *w = zones_invariants(coll._ranges[a], nullptr, -1e30f, 1e30f)) why = w;
+            if (!why && !isCol && inside0) { Position acc(off.x + res.x, off.y + res.y); ctl.counters[1] = ctl.counters[1] + 1;
+                if (acc.x < limit.bl.x - tol || acc.x > limit.tr.x + tol || acc.y < limit.bl.y - tol || acc.y > limit.tr.y + tol) { why = "shift moves the accumulated collision offset outside the limit rectangle"; snprintf(detail, sizeof detail, "offset+shift=(%g,%g)", acc.x, acc.y); } }
+            if (!why && !isCol) { Oct to = oct_at(tb, gc.getBoundingSlantBox(tg), res.x, res.y);
+                for (int k = 0; k < 2 && !why; ++k) { if (!within_reach(coll, *nb[k], px[k] - coll._origin.x, py[k] - coll._origin.y)) continue; ctl.counters[2] = ctl.counters[2] + 1;
+                    float worst = -1e30f; unsigned ns = gc.numSubBounds(ng[k]);
+                    if (ns == 0) worst = penetration(to, oct_at(*nb[k], gc.getBoundingSlantBox(ng[k]), px[k], py[k])); else for (unsigned q = 0; q < ns; ++q) worst = std::max(worst, penetration(to, oct_at(gc.getSubBoundingBBox(ng[k], uint8(q)), gc.getSubBoundingSlantBox(ng[k], uint8(q)), px[k], py[k])));
+                    if (worst > 0.05f) { why = "glyph reported as resolved still overlaps the neighbour"; snprintf(detail, sizeof detail, "neighbour %d; neighbours at (%g,%g) (%g,%g) shift (%g,%g) penetration %.3f collides=%d", k + 1, px[0], py[0], px[1], py[1], res.x, res.y, worst, int(collides)); } }
+                if (collides) ctl.counters[3] = ctl.counters[3] + 1; }
+            if (why) { bool zero = limit.bl.x == limit.tr.x && limit.bl.y == limit.tr.y; JObj o; o.kv("kind", "collider_lattice").kv("neighbours", 2).kv("why", why).kv("detail", detail).kv("font", g_lfonts[c.font]).kv("target_gid", tg).kv("neighbour_gid", ng[0]).kv("neighbour2_gid", ng[1]).kv("dir", c.dir).kv("dir_ltr", (c.dir & 1) == 0).kv("limit", c.limit).kv("limit_zero_area", zero).kv("offset_index", c.off).kv("offset_x", double(off.x)).kv("shift_index", c.sh).kv("is_after", c.after).kv("margin", double(margin));
+                if (getenv("C17_DEBUG")) { fprintf(stdout, "DEBUG _limit=[%g,%g]x[%g,%g] origin=(%g,%g) tb=[%g,%g]x[%g,%g]\n", coll._limit.bl.x, coll._limit.tr.x, coll._limit.bl.y, coll._limit.tr.y, coll._origin.x, coll._origin.y, tb.xi, tb.xa, tb.yi, tb.ya); const SlantBox &ts = gc.getBoundingSlantBox(tg); fprintf(stdout, "DEBUG tsb s[%g,%g] d[%g,%g]\n", ts.si, ts.sa, ts.di, ts.da);
+                    for (int k = 0; k < 2; ++k) { const SlantBox &q = gc.getBoundingSlantBox(ng[k]); fprintf(stdout, "DEBUG n%d bb=[%g,%g]x[%g,%g] s[%g,%g] d[%g,%g] nsub=%u at (%g,%g)\n", k, nb[k]->xi, nb[k]->xa, nb[k]->yi, nb[k]->ya, q.si, q.sa, q.di, q.da, gc.numSubBounds(ng[k]), px[k], py[k]); }
+                    for (int a = 0; a < 4; ++a) { fprintf(stdout, "DEBUG axis %d [%g,%g]:", a, coll._ranges[a]._pos, coll._ranges[a]._posm); for (auto it = coll._ranges[a].begin(); it != coll._ranges[a].end(); ++it) fprintf(stdout, " (%g..%g sm=%g smx=%g c=%g)", it->x, it->xm, it->sm, it->smx, it->c); fprintf(stdout, "\n"); } }
+                if (lattice_first(why, zero, c.font, 2)) report_fail(i, o); else ctl.counters[4] = ctl.counters[4] + 1; stop = true; }
+        } }
+        ctl.cls(uint64_t(tg) * 70001 + ng[0] * 31 + ng[1] * 7 + c.limit); gr_seg_destroy(gs);
     };
 }
 static void extra_l(const Runner &r, JObj &o) { o.kv("arrangements", (unsigned long long)r.counters[0]); }
@@ -206,6 +257,7 @@ int main(int argc, char **argv) {
     std::vector<Sub> subs;
     { Sub s; s.name = "zones_sequences"; s.setup = setup_zones; s.budget_quick = 120; s.budget_thorough = 900; s.counter_names = { "operations" }; s.extra = extra_z; subs.push_back(s); }
     { Sub s; s.name = "end_to_end"; s.setup = setup_e2e; s.budget_quick = 120; s.budget_thorough = 900; s.counter_names = { "resolves", "limit_clause_checked", "neighbour_pairs_checked" }; s.extra = extra_e; subs.push_back(s); }
-    { Sub s; s.name = "collider_lattice"; s.setup = setup_lattice; s.budget_quick = 140; s.budget_thorough = 1200; s.counter_names = { "arrangements", "limit_clause_checked", "verdict_checked", "with_collision" }; s.extra = extra_l; subs.push_back(s); }
+    { Sub s; s.name = "collider_lattice"; s.setup = setup_lattice; s.budget_quick = 140; s.budget_thorough = 1200; s.counter_names = { "arrangements", "limit_clause_checked", "verdict_checked", "with_collision", "repeat_failures_not_reported" }; s.extra = extra_l; subs.push_back(s); }
+    { Sub s; s.name = "collider_lattice2"; s.setup = setup_lattice2; s.budget_quick = 150; s.budget_thorough = 1500; s.counter_names = { "arrangements", "limit_clause_checked", "verdict_checked", "with_collision", "repeat_failures_not_reported" }; s.extra = extra_l; subs.push_back(s); }
     return check_main(argc, argv, "C17", subs);
 }
